@@ -24,7 +24,7 @@ func C04_Jobs() []string {
 	for _, k := range []string{"int", "str", "bool", "slice", "ptr", "structfield"} {
 		out = append(out, "ws/"+k)
 	}
-	out = append(out, "default-items/parse", "default-items/validate", "struct-input", "absent-items", "empty-composites")
+	out = append(out, "default-items/parse", "default-items/validate", "struct-input", "absent-items", "empty-composites", "zero-instant")
 	for _, k := range []string{"int", "str", "bool", "float", "time", "slice", "ptr"} {
 		for _, m := range []string{"parse", "validate"} {
 			for d := 0; d < 4; d++ {
@@ -582,6 +582,33 @@ func c04Extra(kind, mode string) {
 			v.Cover("skipped")
 			v.Assert(len(errs[key]) == 0 && called == 2 && len(d) == 3 && d[pos] == 0, "C04:optional-absent-tested")
 		}
+	case "zero-instant":
+		// Validate: absent iff the Go zero value. The instant 0001-01-01T00:00:00Z carried in a
+		// non-nil location is NOT time.Time{}: it is present (Required satisfied, tests run, Default
+		// and nothing else left alone), also as struct field, slice item and behind a pointer
+		zone := time.FixedZone("CET", 3600)
+		odd := time.Time{}.In(zone)
+		def := time.Unix(5000, 0).UTC()
+		called := 0
+		rec := func(val any, c z.Ctx) bool { called++; return true }
+		d := odd
+		e1 := z.Time().Required().Default(def).TestFunc(rec).Validate(&d)
+		v.Cover("present")
+		v.Assert(len(e1) == 0 && called == 1 && d == odd, "C04:present-value-reported-absent")
+		var ds struct {
+			T time.Time
+			L []time.Time
+			P *time.Time
+		}
+		po := odd
+		ds.T, ds.L, ds.P = odd, []time.Time{odd}, &po
+		em := z.Struct(z.Schema{"t": z.Time().Required().TestFunc(rec), "l": z.Slice(z.Time().Required().Default(def).TestFunc(rec)), "p": z.Ptr(z.Time().Required().TestFunc(rec))}).Validate(&ds)
+		v.Assert(em == nil && called == 4 && ds.T == odd && ds.L[0] == odd && *ds.P == odd, "C04:present-value-reported-absent")
+		// and the true zero value is absent
+		var zero time.Time
+		e2 := z.Time().Required().Validate(&zero)
+		v.Cover("required-issue")
+		v.Assert(len(e2) == 1 && e2[0].Code == "required", "C04:required-absent-not-reported")
 	case "empty-composites":
 		// an empty record / an empty list is a present value (only nil and blank strings are absent
 		// in Parse): behind a pointer the inner schema runs and the pointer is allocated
@@ -646,7 +673,7 @@ func c04Extra(kind, mode string) {
 
 func C04_Run(job string) {
 	a, b, c, d := split3(job)
-	if a == "default-items" || a == "struct-input" || a == "absent-items" || a == "empty-composites" {
+	if a == "default-items" || a == "struct-input" || a == "absent-items" || a == "empty-composites" || a == "zero-instant" {
 		c04Extra(a, b)
 		v.Cover("ws:blank")
 		return
